@@ -158,7 +158,7 @@ def decAlts (s : St) (peek : Bool) : String :=
 
 def runDecoder (c : Codec) (st : DecState) (segs : List Seg) (peek : Bool) : DecOut :=
   match c with
-  | .cobs v => if v.tail then decodeCobsR v st segs peek else decodeCobs v st segs peek
+  | .cobs v => decodeV v st segs peek
   | .command => decodeCommand st segs peek
 
 def step (s : St) (w : List String) : St × String :=
